@@ -245,33 +245,48 @@ structure FloatParts where
   expRun : List Char
   deriving Repr, DecidableEq
 
+/-- integer component of lexical's float parser: the digit run at the head when the input starts with a
+digit (the only other way quil-rs calls it is on an input starting with `.`: empty integer part) -/
+def floatIntPart (inp : List Char) : List Char × List Char :=
+  match inp with
+  | c :: _ => if isAsciiDigit c then numRun 10 inp else ([], inp)
+  | [] => ([], inp)
+
+/-- decimal point and fraction component: (has a point, fraction run, rest) -/
+def floatFracPart (r1 : List Char) : Bool × List Char × List Char :=
+  match r1 with
+  | '.' :: r2 => (true, (numRun 10 r2).1, (numRun 10 r2).2)
+  | _ => (false, [], r1)
+
+/-- exponent component: `none` = `EmptyExponent` error; `some (none, r)` = no exponent marker;
+`some (some (negative, run), r)` = marker, optional sign, digit run with at least one digit -/
+def floatExpPart (r3 : List Char) : Option (Option (Bool × List Char) × List Char) :=
+  match r3 with
+  | e :: r4 =>
+    if e = 'e' ∨ e = 'E' then
+      let sgn : Bool × List Char :=
+        match r4 with
+        | '+' :: r5 => (false, r5)
+        | '-' :: r5 => (true, r5)
+        | _ => (false, r4)
+      let run := numRun 10 sgn.2
+      if runDigits run.1 = [] then none                   -- EmptyExponent
+      else some (some (sgn.1, run.1), run.2)
+    else some (none, r3)
+  | [] => some (none, r3)
+
 /-- lexical `parse_partial::<f64, number_format(10, None)>` on an input that starts with a digit or `.`:
 which characters are consumed and into which components.  `none` = lexical returns an error
 (`EmptyMantissa`, `EmptyExponent`). -/
 def floatExtent (inp : List Char) : Option (FloatParts × List Char) :=
-  let (ip, r1) : List Char × List Char :=
-    match inp with
-    | c :: _ => if isAsciiDigit c then numRun 10 inp else ([], inp)
-    | [] => ([], inp)
-  let (dot, fp, r3) : Bool × List Char × List Char :=
-    match r1 with
-    | '.' :: r2 => let (fp, r3) := numRun 10 r2; (true, fp, r3)
-    | _ => (false, [], r1)
-  if runDigits ip ++ runDigits fp = [] then none       -- EmptyMantissa
+  let ipr := floatIntPart inp
+  let fr := floatFracPart ipr.2
+  if runDigits ipr.1 ++ runDigits fr.2.1 = [] then none       -- EmptyMantissa
   else
-    match r3 with
-    | e :: r4 =>
-      if e = 'e' ∨ e = 'E' then
-        let (neg, r5) : Bool × List Char :=
-          match r4 with
-          | '+' :: r5 => (false, r5)
-          | '-' :: r5 => (true, r5)
-          | _ => (false, r4)
-        let (ep, r6) := numRun 10 r5
-        if runDigits ep = [] then none                   -- EmptyExponent
-        else some (⟨ip, dot, fp, true, neg, ep⟩, r6)
-      else some (⟨ip, dot, fp, false, false, []⟩, r3)
-    | [] => some (⟨ip, dot, fp, false, false, []⟩, r3)
+    match floatExpPart fr.2.2 with
+    | none => none
+    | some (none, r) => some (⟨ipr.1, fr.1, fr.2.1, false, false, []⟩, r)
+    | some (some (neg, ep), r) => some (⟨ipr.1, fr.1, fr.2.1, true, neg, ep⟩, r)
 
 /-- mantissa (all integer and fraction digits) and decimal exponent denoted by the parts -/
 def FloatParts.mantissa (p : FloatParts) : Nat := horner 10 (runDigits p.intRun ++ runDigits p.fracRun)
